@@ -451,3 +451,108 @@ Proof.
   - destruct (gnbrs g v) as [|x l] eqn:E; [cbn in D; lia|]. apply (adjacent_key g v x). rewrite E. left. reflexivity.
   - apply atom_in_ring_spec. exists r. tauto.
 Qed.
+
+(* ---------- _skin_graph on a well-formed graph: no KeyError, and the result is well formed ---------- *)
+Lemma gnbrs_entry g n ms : NoDup (keys g) -> In (n, ms) g -> gnbrs g n = ms.
+Proof. intros N I. unfold gnbrs. rewrite (zget_In_NoDup g n ms N I). reflexivity. Qed.
+
+Lemma In_keys_entry {V} (g : list (Z * V)) n : In n (keys g) -> exists ms, In (n, ms) g.
+Proof. unfold keys. intros H. apply in_map_iff in H. destruct H as [[k l] [E I]]. cbn in E. subst k. exists l. exact I. Qed.
+
+Lemma entry_In_keys {V} (g : list (Z * V)) n ms : In (n, ms) g -> In n (keys g).
+Proof. intros I. unfold keys. apply in_map_iff. exists (n, ms). split; [reflexivity | exact I]. Qed.
+
+(* description of a graph by its keys and neighbour function: gwf in terms of gnbrs *)
+Lemma gwf_gnbrs g : gwf g <->
+  NoDup (keys g) /\ forall n, In n (keys g) -> NoDup (gnbrs g n) /\
+     forall m, In m (gnbrs g n) -> m <> n /\ In m (keys g) /\ In n (gnbrs g m).
+Proof.
+  unfold gwf. split; intros [N W]; (split; [exact N|]).
+  - intros n Hn. destruct (In_keys_entry g n Hn) as [ms I]. rewrite (gnbrs_entry g n ms N I). apply (W n ms I).
+  - intros n ms I. rewrite <- (gnbrs_entry g n ms N I). apply W. apply (entry_In_keys g n ms I).
+Qed.
+
+Lemma keys_remove_key n g : keys (remove_key n g) = filter (fun k => negb (k =? n)) (keys g).
+Proof. unfold remove_key, keys. induction g as [|[k l] g IH]; [reflexivity|]. cbn. destruct (negb (k =? n)); cbn; rewrite IH; reflexivity. Qed.
+
+Lemma gnbrs_discard_in_eq n g m v : NoDup (keys g) ->
+  gnbrs (discard_in n g m) v = if v =? m then discard n (gnbrs g v) else gnbrs g v.
+Proof.
+  unfold gnbrs, discard_in. induction g as [|[k l] g IH]; intros N.
+  - cbn. destruct (v =? m); reflexivity.
+  - cbn in N. inversion N as [|? ? Nk Ng]; subst. cbn [map fst snd]. destruct (Z.eqb_spec k m) as [E|E]; cbn [zget fst snd].
+    + subst k. destruct (Z.eqb_spec v m) as [E2|E2]; [reflexivity|]. rewrite (IH Ng). destruct (Z.eqb_spec v m); [contradiction | reflexivity].
+    + destruct (Z.eqb_spec v k) as [E2|E2].
+      * subst v. destruct (Z.eqb_spec k m); [contradiction | reflexivity].
+      * apply (IH Ng).
+Qed.
+
+Lemma discard_noop n l : ~ In n l -> discard n l = l.
+Proof.
+  intros H. unfold discard. induction l as [|x l IH]; [reflexivity|]. cbn.
+  destruct (Z.eqb_spec x n) as [E|E]; [exfalso; apply H; left; exact E|]. cbn. f_equal. apply IH. intros I. apply H. right. exact I.
+Qed.
+
+Lemma discard_idem n l : discard n (discard n l) = discard n l.
+Proof. apply discard_noop. unfold discard. intros I. apply filter_In in I. destruct I as [_ I]. rewrite Z.eqb_refl in I. discriminate. Qed.
+
+Lemma gnbrs_fold_discard_in_eq n ms : forall g v, NoDup (keys g) ->
+  gnbrs (fold_left (discard_in n) ms g) v = if zmem v ms then discard n (gnbrs g v) else gnbrs g v.
+Proof.
+  induction ms as [|m ms IH]; intros g v N; [reflexivity|]. cbn [fold_left]. rewrite IH by (rewrite keys_discard_in; exact N).
+  rewrite (gnbrs_discard_in_eq n g m v N). cbn [zmem existsb]. destruct (Z.eqb_spec v m) as [E|E]; cbn [orb].
+  - destruct (zmem v ms); [apply discard_idem | reflexivity].
+  - reflexivity.
+Qed.
+
+Lemma In_discard n l x : In x (discard n l) <-> In x l /\ x <> n.
+Proof. unfold discard. rewrite filter_In, negb_true_iff, Z.eqb_neq. tauto. Qed.
+
+Lemma skin_step_wf g n ms : gwf g -> In (n, ms) g ->
+  forallb (fun m => zmem m (keys (remove_key n g))) ms = true /\ gwf (fold_left (discard_in n) ms (remove_key n g)).
+Proof.
+  intros W I. pose proof W as [N Wm]. destruct (Wm n ms I) as [Nms Hms].
+  assert (Nr : NoDup (keys (remove_key n g))) by (apply keys_filter_NoDup; exact N).
+  split.
+  - apply forallb_forall. intros m Hm. apply zmem_In. rewrite keys_remove_key. apply filter_In. destruct (Hms m Hm) as [Ne [K _]].
+    split; [exact K | apply negb_true_iff, Z.eqb_neq; exact Ne].
+  - apply gwf_gnbrs. rewrite keys_fold_discard_in. split; [exact Nr|].
+    assert (NB : forall v, v <> n -> gnbrs (fold_left (discard_in n) ms (remove_key n g)) v = discard n (gnbrs g v)).
+    { intros v Hv. rewrite gnbrs_fold_discard_in_eq by exact Nr. rewrite gnbrs_remove_key by exact Hv.
+      destruct (zmem v ms) eqn:E; [reflexivity|]. symmetry. apply discard_noop. intros In_n.
+      assert (Hs : In v (gnbrs g n)) by (apply (gwf_sym g v n W In_n)). rewrite (gnbrs_entry g n ms N I) in Hs. apply zmem_In in Hs. congruence. }
+    intros v Kv. rewrite keys_remove_key in Kv. apply filter_In in Kv. destruct Kv as [Kv Nv]. apply negb_true_iff, Z.eqb_neq in Nv.
+    rewrite (NB v Nv). apply (proj1 (gwf_gnbrs g)) in W. destruct W as [_ Wg]. destruct (Wg v Kv) as [Nd Hv]. split.
+    + unfold discard. apply NoDup_filter. exact Nd.
+    + intros m Hm. apply In_discard in Hm. destruct Hm as [Hm Nm]. destruct (Hv m Hm) as [A1 [A2 A3]]. split; [exact A1|]. split.
+      * rewrite keys_remove_key. apply filter_In. split; [exact A2 | apply negb_true_iff, Z.eqb_neq; exact Nm].
+      * rewrite (NB m Nm). apply In_discard. split; [exact A3 | exact Nv].
+Qed.
+
+Lemma skin_loop_wf fuel : forall g, gwf g -> (length g < fuel)%nat -> exists g', skin_loop fuel g = Ok g' /\ gwf g'.
+Proof.
+  induction fuel as [|f IH]; intros g W L; [lia|]. cbn [skin_loop].
+  destruct (find is_terminal g) as [[n ms]|] eqn:F; [|exists g; split; [reflexivity | exact W]].
+  apply find_some in F. destruct F as [I _]. destruct (skin_step_wf g n ms W I) as [C W'].
+  rewrite C. apply IH; [exact W'|]. rewrite length_fold_discard_in. pose proof (remove_key_shorter n ms g I). lia.
+Qed.
+
+Lemma filter_nonempty_wf g : gwf g -> gwf (filter nonempty_entry g).
+Proof.
+  intros W. pose proof W as [N Wm]. split; [apply keys_filter_NoDup; exact N|].
+  intros n ms I. apply filter_In in I. destruct I as [I _]. destruct (Wm n ms I) as [Nd H]. split; [exact Nd|].
+  intros m Hm. destruct (H m Hm) as [A1 [A2 A3]]. split; [exact A1|].
+  destruct (In_keys_entry g m A2) as [l Il].
+  assert (El : gnbrs g m = l) by (apply gnbrs_entry; assumption). rewrite El in A3.
+  assert (If : In (m, l) (filter nonempty_entry g)).
+  { apply filter_In. split; [exact Il|]. unfold nonempty_entry. cbn [snd]. destruct l; [destruct A3 | reflexivity]. }
+  split; [apply (entry_In_keys _ m l If)|].
+  rewrite (gnbrs_entry (filter nonempty_entry g) m l (keys_filter_NoDup _ g N) If). exact A3.
+Qed.
+
+(* on a well-formed graph (every MoleculeContainer adjacency): the pruning raises nothing and returns a well-formed graph *)
+Theorem skin_graph_wf g : gwf g -> exists g', skin_graph g = Ok g' /\ gwf g'.
+Proof.
+  intros W. unfold skin_graph. apply skin_loop_wf; [apply filter_nonempty_wf; exact W|].
+  pose proof (filter_len_le nonempty_entry g). lia.
+Qed.
